@@ -41,6 +41,7 @@ type Solver struct {
 	Name    string
 	cmd     *exec.Cmd
 	in      io.WriteCloser
+	w       *bufio.Writer
 	out     *bufio.Reader
 	defined map[int]bool
 	declard map[string]bool
@@ -75,7 +76,7 @@ func NewSolver(kind string, timeoutMs int) (*Solver, error) {
 	if err := cmd.Start(); err != nil {
 		return nil, err
 	}
-	s := &Solver{Name: kind, cmd: cmd, in: in, out: bufio.NewReaderSize(out, 1<<16),
+	s := &Solver{Name: kind, cmd: cmd, in: in, w: bufio.NewWriterSize(in, 1<<16), out: bufio.NewReaderSize(out, 1<<16),
 		defined: map[int]bool{}, declard: map[string]bool{}, timeout: timeoutMs}
 	if lf := os.Getenv("GOSYM_SMTLOG"); lf != "" {
 		if f, err := os.OpenFile(fmt.Sprintf("%s.%d", lf, cmd.Process.Pid), os.O_CREATE|os.O_WRONLY|os.O_TRUNC, 0o644); err == nil {
@@ -97,6 +98,7 @@ func (s *Solver) Close() {
 		return
 	}
 	s.dead = true
+	s.w.Flush()
 	s.in.Close()
 	done := make(chan struct{})
 	go func() { s.cmd.Wait(); close(done) }()
@@ -111,8 +113,8 @@ func (s *Solver) send(line string) {
 	if s.Log != nil {
 		fmt.Fprintln(s.Log, line)
 	}
-	io.WriteString(s.in, line)
-	io.WriteString(s.in, "\n")
+	s.w.WriteString(line)
+	s.w.WriteByte('\n')
 }
 
 func (s *Solver) ensure(t *Term) {
@@ -164,6 +166,7 @@ func (s *Solver) readLine() (string, error) {
 func (s *Solver) Check() Verdict {
 	t0 := time.Now()
 	s.send("(check-sat)")
+	s.w.Flush()
 	s.Stats.Queries++
 	v := Unknown
 	for {
@@ -272,6 +275,7 @@ func (s *Solver) Values(vars []*Term) map[string]uint64 {
 	}
 	sb.WriteString("))")
 	s.send(sb.String())
+	s.w.Flush()
 	text := s.readSexp()
 	vals := parseGetValue(text)
 	for i, v := range vars {
